@@ -170,7 +170,32 @@ impl<T> Mutex<ChannelInternal<T>> {
         ensures m.init() == v,
     { unimplemented!() }
     pub uninterp spec fn init(&self) -> ChannelInternal<T>;
+    /// lock_api's unsafe escape hatch.  Its documented safety condition -- "must only be called if the thread
+    /// logically holds the lock" -- is the precondition: a guard made without the lock unlocks someone else's
+    /// critical section when it drops (seed C17g).
+    #[verifier::external_body]
+    pub unsafe fn make_guard_unchecked(&self, Tracked(fx): Tracked<&mut Fx<T>>) -> (g: MutexGuard<'_, ChannelInternal<T>>)
+        requires /*@tag:O-guard-needs-lock C17 C03 C18 C14*/ old(fx).held,
+        ensures wf(g.view()), a3(g.view()),
+            final(fx).cs == old(fx).cs.push(CS { pre: g.view(), post: g.view() }),
+            final(fx).same_effects(*old(fx)), final(fx).held, final(fx).listed == Set::<SignalTerminator<T>>::empty(),
+    { unimplemented!() }
+    /// the raw lock behind the mutex (lock_api `Mutex::raw`)
+    #[verifier::external_body]
+    pub unsafe fn raw(&self) -> (r: &RawLockView<T>) { unimplemented!() }
 }
+/// stand-in for the raw lock reached through `Mutex::raw()`: one attempt, never waits, no guard is produced
+#[verifier::external_body] #[verifier::accept_recursive_types(T)]
+pub struct RawLockView<T> { p: core::marker::PhantomData<T> }
+impl<T> RawLockView<T> {
+    #[verifier::external_body]
+    pub fn try_lock(&self, Tracked(fx): Tracked<&mut Fx<T>>) -> (r: bool)
+        requires !old(fx).held,
+        ensures r == final(fx).held, final(fx).cs == old(fx).cs, final(fx).same_effects(*old(fx)), final(fx).listed == Set::<SignalTerminator<T>>::empty(),
+    { unimplemented!() }
+}
+/// so that `use lock_api::RawMutex;` in woven text resolves (the trait's methods are the stand-ins above)
+pub mod lock_api { pub trait RawMutex {} }
 
 /// A3: fewer than 2^32-1 live handles per side (assumed at every acquisition)
 pub open spec fn a3<T>(c: ChannelInternal<T>) -> bool { c.send_count < u32::MAX && c.recv_count < u32::MAX }
